@@ -48,12 +48,12 @@ def main():
         assert rc == 0, out
         for c in checks:
             t0 = time.time()
-            rc, out = sh(["./check", c], cwd=VERIF, env={"VERIF_REPO": WT, "VERIF_TARGET_DIR": "/tmp/verif-alt-target-" + os.path.basename(WT)})
+            rc, out = sh(["./check", c], cwd=VERIF, env={"VERIF_REPO": WT, "VERIF_TARGET_DIR": "/tmp/verif-alt-target-" + os.path.basename(WT), "VERIF_OUT_DIR": "/tmp/verif-alt-out-" + os.path.basename(WT)})
             lines = [l for l in out.split("\n") if l.startswith("VIOLATION") or l.startswith("# C")]
             res["checks"][c] = {"rc": rc, "detected": rc == 1 and any(l.startswith("VIOLATION") for l in lines),
                                 "lines": lines, "wall_s": round(time.time() - t0, 1), "rerun": True}
             print(f"[check {c}] rc={rc} {lines}")
-            rp = os.path.join(VERIF, "replays", c)
+            rp = os.path.join("/tmp/verif-alt-out-" + os.path.basename(WT), "replays", c)
             if rc == 1 and os.path.isdir(rp):
                 dst = os.path.join(d, "replay_" + c)
                 shutil.rmtree(dst, ignore_errors=True); shutil.copytree(rp, dst)
@@ -87,13 +87,13 @@ def main():
     res["checks"] = {}
     for c in checks:
         t0 = time.time()
-        rc, out = sh(["./check", c], cwd=VERIF, env={"VERIF_REPO": WT, "VERIF_TARGET_DIR": "/tmp/verif-alt-target-" + os.path.basename(WT)})
+        rc, out = sh(["./check", c], cwd=VERIF, env={"VERIF_REPO": WT, "VERIF_TARGET_DIR": "/tmp/verif-alt-target-" + os.path.basename(WT), "VERIF_OUT_DIR": "/tmp/verif-alt-out-" + os.path.basename(WT)})
         lines = [l for l in out.split("\n") if l.startswith("VIOLATION") or l.startswith("# C")]
         res["checks"][c] = {"rc": rc, "detected": rc == 1 and any(l.startswith("VIOLATION") for l in lines),
                             "lines": lines, "wall_s": round(time.time() - t0, 1)}
         print(f"[check {c}] rc={rc} {lines}")
         # keep the replay the check wrote
-        rp = os.path.join(VERIF, "replays", c)
+        rp = os.path.join("/tmp/verif-alt-out-" + os.path.basename(WT), "replays", c)
         if rc == 1 and os.path.isdir(rp):
             dst = os.path.join(d, "replay_" + c)
             shutil.rmtree(dst, ignore_errors=True); shutil.copytree(rp, dst)
